@@ -353,6 +353,19 @@ class STT:
         raise AttributeError(k)
 
 
+class SObj:
+    """a plain attribute container (`trains = Object(); trains.operator = ...`): fields by name, identity by ref"""
+
+    def __init__(self, ref):
+        self.ref = zi(ref)
+        self.f = {}
+
+    def snapshot(self):
+        s = SObj(self.ref)
+        s.f = {k: (v.snapshot() if isinstance(v, (SList, STT, SObj)) else v) for k, v in self.f.items()}
+        return s
+
+
 class SFunc:
     """a nested function definition (closure over the defining state's environment)"""
 
